@@ -6,8 +6,10 @@
     gsched <gen|repaired> <init> <max> <shared> <schedule> <op>…    op = g<delta> | s
                                               -> ret <v|->… pages <p> size <s> [blocked <t>]…   (same as grow_sched.c)
     gseq <gen|repaired> <init> <max> <shared> <delta>…              -> ret <v>… pages <p> size <s>
+    gcontent <gen|repaired> <init> <max> <reallocFails> <delta>…    -> r=<ret>,p=<pages>,o=<0|1>,z=<n>,f=<off|-> …   (same as grow_sched.c `content`)
 -/
 import W2c2Verif.Lemmas.GrowCex
+import W2c2Verif.Model.GrowContent
 
 namespace Driver.Grow
 open W2c2Verif W2c2Verif.Model W2c2Verif.Model.Grow
@@ -41,7 +43,7 @@ def stepStr : MStep → String
   | .lock => ".lock"
   | .unlock => ".unlock"
   | .realloc r p n => s!".realloc {r} {exprStr p} {exprStr n}"
-  | .memset d v n => s!".memset {exprStr d} {exprStr v} {exprStr n}"
+  | .memset p off v n => s!".memset {p} {exprStr off} {exprStr v} {exprStr n}"
   | .abort => ".abort"
 
 def progOf : String → Option (List MStep)
@@ -94,6 +96,32 @@ def gseq (prog : List MStep) (init max : Nat) (shared : Bool) (deltas : List Nat
   let r := go (allocMem init max shared) deltas []
   s!"ret {" ".intercalate r.2} pages {r.1.pages} size {r.1.size}"
 
+/-- the byte pattern the real-side harness writes into the pages in use -/
+def pat (i : Nat) : Nat := ((i * 31 + 7) % 256) ||| 1
+
+/-- non-shared memory with contents; realloc leaves 0xAA beyond the old bytes (as tools/harness/grow_sched.c does) -/
+def gcontent (prog : List MStep) (init max : Nat) (fail : Bool) (deltas : List Nat) : String :=
+  let imm : Imm := { maxPages := max, shared := false, reallocFails := fail }
+  let rec go (st : GrowContent.CState) (ds : List Nat) (acc : List String) : List String :=
+    match ds with
+    | [] => acc.reverse
+    | d :: rest =>
+      let size := st.mem.pages * 65536
+      match GrowContent.growC imm (fun _ => 0xAA) prog st (d % 4294967296) with
+      | none => ("stuck" :: acc).reverse
+      | some (st', v) =>
+        let newSize := st'.mem.pages * 65536
+        let oldOk := (List.range (min size newSize)).all fun k => st'.cur.bytes k == pat k
+        let bad := (List.range (newSize - size)).filter fun k => st'.cur.bytes (size + k) != 0
+        let first := match bad with | [] => "-" | k :: _ => toString (size + k)
+        let line := s!"r={v},p={st'.mem.pages},o={if oldOk then 1 else 0},z={bad.length},f={first}"
+        -- the program now uses the new pages
+        let st'' : GrowContent.CState := { st' with cur := { st'.cur with bytes := pat } }
+        go st'' rest (line :: acc)
+  let st0 : GrowContent.CState :=
+    { mem := { data := 1, size := init * 65536 % 4294967296, pages := init }, cur := { cap := init * 65536, bytes := pat } }
+  " ".intercalate (go st0 deltas [])
+
 def cmd (ws : List String) : Option String :=
   match ws with
   | ["gstatus"] =>
@@ -109,6 +137,10 @@ def cmd (ws : List String) : Option String :=
   | "gseq" :: p :: init :: max :: shared :: deltas =>
     match progOf p, init.toNat?, max.toNat?, shared.toNat?, deltas.mapM (·.toNat?) with
     | some prog, some i, some m, some sh, some ds => some (gseq prog i m (sh != 0) ds)
+    | _, _, _, _, _ => some "err args"
+  | "gcontent" :: p :: init :: max :: fail :: deltas =>
+    match progOf p, init.toNat?, max.toNat?, fail.toNat?, deltas.mapM (·.toNat?) with
+    | some prog, some i, some m, some f, some ds => some (gcontent prog i m (f != 0) ds)
     | _, _, _, _, _ => some "err args"
   | _ => none
 
